@@ -542,9 +542,21 @@ impl<'a, B: Backend> Exec<'a, B> {
                 findings.push(("budget:no-restart-after-full-window".into(), format!("a push at {t} got as far as the budget test {} ns after the window start {prev_ws} (window {} ns), yet the window was not restarted (counter {prev_cnt} -> {d_cnt})", t - prev_ws, self.model.limits.window_ns)));
             }
         }
-        // the model adopts the implementation's budget state (any illegal move was recorded above)
-        self.model.window_start = d_ws;
-        self.model.verifies = d_cnt;
+        // The model keeps ITS OWN budget state by the documented fixed-window rules; from the
+        // implementation it takes only what the rules leave open: the instant inside the push's span at
+        // which a due restart happens. (It used to adopt the implementation's window start and counter
+        // after checking each transition, which made every later admission decision follow a wrong
+        // counter instead of contradicting it.)
+        if restarted && elapsed && in_span {
+            self.model.window_start = d_ws;
+            self.model.verifies = 0;
+        } else if elapsed && decision.reaches_budget() {
+            self.model.window_start = t;
+            self.model.verifies = 0;
+        }
+        if decision.reaches_verify() {
+            self.model.verifies += 1;
+        }
         if restarted {
             self.probes.inc("window_restart");
             if t - prev_ws == self.model.limits.window_ns {
